@@ -152,7 +152,15 @@ pub fn check_names(rep: &mut CaseReport, f: &SynthFont, bytes: &[u8]) {
                     if id < 256 { rep.fail("feature-params-name-id-in-reserved-range", format!("{}: {id}", fr.feature_tag())); }
                     if let Some(s) = resolve(rep, id, &format!("GSUB feature {} UI name", fr.feature_tag())) { if want_feature_name && s != "Fancy alternates" { rep.fail("feature-name-differs-from-feature-code", format!("{}: name id {id} says {s:?}, the feature file says \"Fancy alternates\"", fr.feature_tag())); } }
                 }
-                Some(Ok(FeatureParams::CharacterVariant(p))) => { for id in [p.feat_ui_label_name_id(), p.feat_ui_tooltip_text_name_id(), p.sample_text_name_id(), p.first_param_ui_label_name_id()] { if id.to_u16() != 0 { resolve(rep, id.to_u16(), "cvXX parameter"); } } }
+                Some(Ok(FeatureParams::CharacterVariant(p))) => {
+                    // the labels the feature file gives this character variant: the feature label, then the parameter labels as a run of ids
+                    if let Some((feat_label, params)) = f.features.as_deref().and_then(|t| cv_labels(t, &fr.feature_tag().to_string())) {
+                        rep.class("cvXX-parameter-labels-checked");
+                        if let Some(s) = resolve(rep, p.feat_ui_label_name_id().to_u16(), "cvXX feature label") { if s != feat_label { rep.fail("character-variant-label-differs-from-feature-code", format!("{}: feature label {s:?}, the feature file says {feat_label:?}", fr.feature_tag())); } }
+                        if p.num_named_parameters() as usize != params.len() { rep.fail("character-variant-label-differs-from-feature-code", format!("{}: {} named parameters, the feature file has {}", fr.feature_tag(), p.num_named_parameters(), params.len())); }
+                        else { for (k, want) in params.iter().enumerate() { let id = p.first_param_ui_label_name_id().to_u16() + k as u16; if let Some(s) = resolve(rep, id, "cvXX parameter label") { if &s != want { rep.fail("character-variant-label-differs-from-feature-code", format!("{}: label of parameter {} (name id {id}) is {s:?}, the feature file says {want:?}", fr.feature_tag(), k + 1)); } } } }
+                    }
+                    for id in [p.feat_ui_label_name_id(), p.feat_ui_tooltip_text_name_id(), p.sample_text_name_id(), p.first_param_ui_label_name_id()] { if id.to_u16() != 0 && id.to_u16() != 0xFFFF { resolve(rep, id.to_u16(), "cvXX parameter"); } } }
                 _ => {}
             }
         }
@@ -213,5 +221,17 @@ fn naming_tables_differ(b: &Built, again: &[u8]) -> Option<String> {
 pub fn parts() -> Vec<Part> {
     vec![Part { name: "names", genome_len: 2900, cases_quick: 1500, cases_thorough: 30_000, threads: 12, max_shrink_iters: 300, check: Box::new(check), remote: None }]
 }
+/// (feature label, parameter labels) of `feature <tag> { cvParameters { ... } }` in generated feature code
+fn cv_labels(fea: &str, tag: &str) -> Option<(String, Vec<String>)> {
+    let start = fea.find(&format!("feature {tag} {{"))?;
+    let body = &fea[start..start + fea[start..].find(&format!("}} {tag};"))?];
+    let label_after = |s: &str| -> Option<String> { let i = s.find("name \"")? + 6; let j = s[i..].find('"')?; Some(s[i..i + j].to_string()) };
+    let feat = label_after(&body[body.find("FeatUILabelNameID")?..])?;
+    let mut params = vec![];
+    let mut rest = body;
+    while let Some(i) = rest.find("ParamUILabelNameID") { rest = &rest[i + 18..]; params.push(label_after(rest)?); }
+    Some((feat, params))
+}
+
 pub const RULE: &str = "genome -> SynthFont with 0-2 axes (+ optional point axis), naming facet: family / style present or missing, styleMap family / style, preferred family / subfamily, postscript name, version; RIBBI and non-RIBBI styles; axis labels (English, only other languages, none; equal to family / style strings); 0-4 named instances whose style names are drawn from the family / style / full-name strings, axis label strings and fresh strings, with and without postscript names, at default and other locations; optional feature code with a stylistic set featureNames block registered under 1-3 language systems (one with a language-specific lookup). Checked: every name id referenced by fvar, STAT and GSUB feature parameters resolves to a non-empty Windows en-US record; id ranges (axes >= 256; instance subfamily 2/17 only at the default location, else 256..32767; postscript >= 256 or 0xFFFF); strings equal the source's axis labels, instance style names, postscript names and feature names; ids 1,2,3,4,5,6,16,17 equal the documented ufo2ft fallback chain in the classes where it is unambiguous; name/fvar/STAT/GSUB identical over 3 rebuilds. non-trivial = variable source with an instance named like the family or style string";
 pub const ASSUMPTIONS: &[&str] = &["the fallback chain is checked when family and style names are present and either both styleMap names are given, or only the styleMap family without a preferred subfamily, or neither styleMap nor preferred names are given (elsewhere implementations differ on which field the RIBBI test looks at)", "vendor id default NONE, no explicit unique id / version string / full name in the source", "axis names are not the lower-case MutatorMath names that fontTools expands"];
